@@ -36,6 +36,12 @@ CLAIMED = {
              "Sequence-level programs (square pulses at the set-point, idle at the off-detuning, stored chosen off-detuning) and the phase-drift "
              "bookkeeping of correct_phase_drift with symbolic idle durations.", ref="§6 C15",
              note="Trusted base: z3 (QF_NRA for K1), symx, stubs in the evidence file; EOM configuration numbers concrete; emulator equivalence outside the claim."),
+ "C06": dict(text="Bounded symbolic model checking of sampling: 9 programs (global/local/multi-target channels, retargets, DMM with "
+             "detuning map, XY + SLM mask, EOM blocks incl. modify and enable/disable on an empty channel) with concrete timelines and symbolic "
+             "amplitudes, detunings and detuning-map weights; every nanosecond of every channel, of the per-atom view (all_local False/True) and of "
+             "extend_duration is compared with a reference renderer written from the slot list.", ref="§6 C06",
+             note="Trusted base: z3, symx (numpy object arrays carry the proxies; slicing/broadcast are numpy's own). Timelines concrete (a bound); "
+             "modulated samples and the padding of a channel still in EOM mode in the per-atom view are outside the claim."),
  "C02": dict(text="Bounded symbolic model checking of the real _Schedule operations: one operation from an arbitrary state "
              "satisfying the representation invariant (inductive step), all times/durations/fall times/limits as solver variables; "
              "exhaustive over paths and values inside the stated slot-count/clock bounds.", ref="§6 C02, §5 L1"),
